@@ -412,7 +412,7 @@ def _trunc_int(e):
 class Sym:
     """symbolic number standing for a Python int, a Decimal or a float"""
 
-    __slots__ = ("e", "kind", "_unit", "_rnd")
+    __slots__ = ("e", "kind", "_unit", "_rnd", "_ratio")
     __array_ufunc__ = None
     __array_priority__ = 1000
 
@@ -421,6 +421,7 @@ class Sym:
         self.kind = kind
         self._unit = unit
         self._rnd = rnd  # (real term x, Fraction quantum q, rounding mode): self == round_q(x); lets comparisons avoid ToInt
+        self._ratio = None  # (int term, positive int): self == num/den exactly; lets round() stay in integer arithmetic
 
     # ---- helpers
     def _bin(self, o, f, op, reflected=False):
@@ -493,9 +494,14 @@ class Sym:
         if kind == INT:
             kind = FLT
         a, b = (oe, self.e) if reflected else (self.e, oe)
+        ratio = None
+        if not reflected and self.kind == INT and _builtin_isinstance(o, _builtin_int) and not _builtin_isinstance(o, bool) and o > 0:
+            ratio = (self.e, o)
         a, b = _real(a), _real(b)
         self._zero_div(a, b, kind)
-        return Sym(a / b, kind)
+        res = Sym(a / b, kind)
+        res._ratio = ratio
+        return res
 
     def __truediv__(self, o):
         return self._truediv(o, False)
@@ -773,6 +779,12 @@ class Sym:
         return Sym(r * q, DEC if self.kind != FLT else FLT, rnd=(_real(self.e), qf, rounding))
 
     def __round__(self, n=None):
+        if n is None and self._ratio is not None:
+            num, den = self._ratio
+            q = num / den  # z3 integer division: floor for a positive divisor
+            rem2 = 2 * (num - q * den)
+            up = z3.Or(rem2 > den, z3.And(rem2 == den, q % 2 != 0))
+            return Sym(z3.If(up, q + 1, q), INT)
         if n is None:
             r, _ = self._quant(fractions.Fraction(1), decimal.ROUND_HALF_EVEN)
             return Sym(z3.ToInt(r), INT)
@@ -921,6 +933,9 @@ def sym_pow(a, b):
     return Sym(uf("pow", 2)(ea, eb), kind)
 
 
+LOG_HOOK = None  # harness-provided: (x_real_term, base) -> None, adds the stub's contract (axioms) for this application
+
+
 def sym_log(x, base=None):
     e, k = _to_real_term(x)
     if bool(SymBool(e <= 0)):
@@ -928,7 +943,10 @@ def sym_log(x, base=None):
     if base is None:
         return Sym(uf("ln")(e), FLT)
     eb, _ = _to_real_term(base)
-    return Sym(uf("log", 2)(e, eb), FLT)
+    y = uf("log", 2)(e, eb)
+    if LOG_HOOK is not None:
+        LOG_HOOK(e, base, y)
+    return Sym(y, FLT)
 
 
 def sym_int(x):
